@@ -2,9 +2,10 @@
 //! output formats of the finality / parent-ready trackers and the pool, world generators and the
 //! naive reference semantics ("spec") used by the oracles.
 //!
-//! Block hash ids: id 0 is `GENESIS_BLOCK_HASH`; id k > 0 is the 32-byte string whose first 8 bytes
-//! are k big-endian, so the `Ord` of real hashes equals the order of the ids (the code sorts ready
-//! parents by `(slot, hash)` in `wait_for_parent_ready`).
+//! Block hash ids: id 0 is `GENESIS_BLOCK_HASH`; id k > 0 is `ag_harness::advhash::block_hash(k)`: the ids
+//! 4g+1..4g+4 share all bytes but one (early or late, depending on g), and the `Ord` of real hashes equals
+//! the order of the ids (the code sorts ready parents by `(slot, hash)` in `wait_for_parent_ready`).
+//! The generators allocate the competing blocks of one slot inside one group.
 #![allow(dead_code)]
 use std::collections::{BTreeMap, BTreeSet};
 
@@ -17,18 +18,11 @@ use alpenglow::BlockId;
 pub type B = (u64, u64);
 
 pub fn hash(id: u64) -> BlockHash {
-    if id == 0 {
-        return GENESIS_BLOCK_HASH;
-    }
-    let mut b = [0u8; 32];
-    b[..8].copy_from_slice(&id.to_be_bytes());
-    let h: alpenglow::crypto::Hash = wincode::deserialize(&b).expect("32 bytes are a Hash");
-    h.into()
+    advhash::block_hash(id)
 }
 
 pub fn hid(h: &BlockHash) -> u64 {
-    let b = wincode::serialize(h).expect("hash serialises");
-    u64::from_be_bytes(b[..8].try_into().unwrap())
+    advhash::block_id(h).expect("interned block hash")
 }
 
 pub fn bid(b: B) -> BlockId {
@@ -247,7 +241,14 @@ impl Spec {
 
 /// hash id of the notarized sibling of chain block `b` (D27)
 pub fn sibling_of(b: B) -> B {
-    (b.0, 200 + b.1)
+    (b.0, b.1 + 1)
+}
+
+/// hash id of the chain block of slot `s`: the first member of hash group `s` (`advhash`: ids 4s+1..4s+4 differ in a
+/// single byte).  Everything else a world puts into slot `s` - the notarized sibling (4s+2), side blocks (4s+3, 4s+4),
+/// the off-chain notarization of a skipped slot (4s+2) - comes from the same group.
+pub fn chain_id(s: u64) -> u64 {
+    4 * s + 1
 }
 
 /// A consistent "world": one chain from genesis, side blocks, off-chain notarizations (in slots the
@@ -268,15 +269,14 @@ pub fn gen_world(rng: &mut Rng, max_slot: u64) -> World {
     let density = rng.range(3, 9);
     for s in 1..=top {
         if rng.chance(density, 10) || s == top {
-            chain.push((s, next_hash));
-            next_hash += 1;
+            chain.push((s, chain_id(s)));
         }
     }
-    let mut side = Vec::new();
+    let mut side: Vec<(B, B)> = Vec::new();
     for _ in 0..rng.below(4) {
         let s = rng.range(1, top + 1);
-        let b = (s, 100 + next_hash);
-        next_hash += 1;
+        let k = side.iter().filter(|(b, _)| b.0 == s).count() as u64;
+        let b = (s, if k < 2 { chain_id(s) + 2 + k } else { next_hash += 1; chain_id(40 + next_hash) });
         // parent: any earlier chain block or earlier side block
         let mut cands: Vec<B> = chain.iter().copied().filter(|c| c.0 < s).collect();
         cands.extend(side.iter().map(|(b, _): &(B, B)| *b).filter(|c| c.0 < s));
@@ -342,7 +342,7 @@ pub fn world_fops(rng: &mut Rng, w: &World) -> Vec<FOp> {
     let on_chain: BTreeSet<u64> = w.chain.iter().map(|b| b.0).collect();
     for s in 1..=w.top {
         if !on_chain.contains(&s) && rng.chance(1, 4) {
-            ops.push(FOp::Notar((s, 50 + s)));
+            ops.push(FOp::Notar((s, chain_id(s) + 1)));
         }
     }
     ops
